@@ -163,4 +163,71 @@ example : importDist ⟨15, 1⟩ = .ok 15000 ∧ importDist ⟨150, 2⟩ = .ok 1
 example : importDist ⟨123456, 5⟩ = .err ∧ importDist ⟨-25, 2⟩ = .ok (-2500) := by decide
 example : importPoint ⟨⟨1, 0⟩, ⟨25, 1⟩⟩ = .ok ⟨10000, 25000⟩ := by decide
 
+/-- the shapes recorded for a layer name -/
+def shapesFor (m : List (List Nat × List Shape)) (L : List Nat) : List Shape :=
+  match m.find? (fun e => e.1 == L) with
+  | some e => e.2
+  | none => []
+
+theorem shapesFor_addShapes (m : List (List Nat × List Shape)) (layer L : List Nat) (ss : List Shape) :
+    shapesFor (addShapes m layer ss) L = shapesFor m L ++ (if layer = L then ss else []) := by
+  induction m with
+  | nil =>
+    by_cases h : layer = L
+    · simp [addShapes, shapesFor, h]
+    · have : (layer == L) = false := by simpa using h
+      simp [addShapes, shapesFor, h, this]
+  | cons e rest ih =>
+    obtain ⟨l, old⟩ := e
+    simp only [addShapes]
+    by_cases hl : l = layer
+    · subst hl
+      simp only [if_true]
+      by_cases h : l = L
+      · subst h; simp [shapesFor]
+      · have : (l == L) = false := by simpa using h
+        simp [shapesFor, this, h]
+    · simp only [hl, if_false]
+      by_cases h : l = L
+      · subst h
+        have : ¬ layer = l := fun e => hl e.symm
+        simp [shapesFor, this]
+      · have hb : (l == L) = false := by simpa using h
+        simp only [shapesFor, List.find?_cons, hb] at ih ⊢
+        exact ih
+
+/-- the shapes of the blocks named `L`, in block order -/
+def blocksFor (L : List Nat) : List (List Nat × List Shape) → List Shape
+  | [] => []
+  | (l, ss) :: rest => (if l = L then ss else []) ++ blocksFor L rest
+
+/-- **several LAYER blocks with the same name inside one pin / OBS**: the shapes recorded for a layer
+    name are exactly the shapes of all its blocks, in block order — nothing dropped, nothing moved to
+    another layer -/
+theorem c16_layer_blocks : ∀ (lgs : List LayerGeoms) (m0 m : List (List Nat × List Shape)),
+    importLayerList m0 lgs = .ok m →
+    ∃ blocks : List (List Nat × List Shape), lgs.map importLayerGeoms = blocks.map .ok ∧
+      ∀ L, shapesFor m L = shapesFor m0 L ++ blocksFor L blocks := by
+  intro lgs
+  induction lgs with
+  | nil => intro m0 m h; simp only [importLayerList, Out.ok.injEq] at h; subst h; exact ⟨[], rfl, by intro L; simp [blocksFor]⟩
+  | cons lg rest ih =>
+    intro m0 m h
+    simp only [importLayerList] at h
+    cases hb : importLayerGeoms lg with
+    | err => simp [hb] at h
+    | ok b =>
+      obtain ⟨l, ss⟩ := b
+      simp only [hb] at h
+      obtain ⟨blocks, h1, h2⟩ := ih _ _ h
+      refine ⟨(l, ss) :: blocks, by simp [hb, h1], ?_⟩
+      intro L
+      rw [h2 L, shapesFor_addShapes]
+      simp [blocksFor, List.append_assoc]
+
+
+example : importLayerList [] [⟨[77, 49], none, false, .none, [.rect ⟨⟨0, 0⟩, ⟨0, 0⟩⟩ ⟨⟨1, 0⟩, ⟨1, 0⟩⟩]⟩, ⟨[77, 50], none, false, .none, []⟩,
+      ⟨[77, 49], none, false, .none, [.rect ⟨⟨2, 0⟩, ⟨2, 0⟩⟩ ⟨⟨3, 0⟩, ⟨3, 0⟩⟩]⟩] =
+    .ok [([77, 49], [.rect ⟨0, 0⟩ ⟨10000, 10000⟩, .rect ⟨20000, 20000⟩ ⟨30000, 30000⟩]), ([77, 50], [])] := by decide
+
 end L21.LefRaw
